@@ -9,6 +9,7 @@ package sstls
  */
 
 import (
+	"bytes"
 	"crypto/tls"
 	"crypto/x509"
 	"fmt"
@@ -71,6 +72,22 @@ func LoadCachedCertificate(certFile string) (tls.Certificate, error) {
 		)
 	}
 	cert.Leaf = leaf
+
+	/* A certificate we generated is self-signed, which lets us make sure
+	the cached copy hasn't been damaged in some way which still parses. */
+	if bytes.Equal(leaf.RawIssuer, leaf.RawSubject) {
+		if err := leaf.CheckSignature(
+			leaf.SignatureAlgorithm,
+			leaf.RawTBSCertificate,
+			leaf.Signature,
+		); nil != err {
+			return tls.Certificate{}, fmt.Errorf(
+				"checking signature of certificate from %s: %w",
+				certFile,
+				err,
+			)
+		}
+	}
 
 	return cert, nil
 }
